@@ -78,6 +78,10 @@ type G struct {
 	// selectors are sometimes derived from them (identical, or with one more
 	// matcher) so that selects are shared, merged and propagated.
 	prev [][2]string
+	// zeroSign > 0 while an operand of / ^ atan2 is drawn: the sign of a zero decides
+	// between +Inf and -Inf there, and min/max over a group that holds +0 and -0 return
+	// whichever came first (series order), in the reference as well as in the engine.
+	zeroSign int
 }
 
 func NewG(t *rapid.T, q QCtx, p Profile, dataCls Cls, w Window) *G {
@@ -234,7 +238,9 @@ type ifn struct {
 var instFns = []ifn{
 	{"abs", true, true}, {"ceil", false, true}, {"floor", false, true},
 	{"exp", true, false}, {"sqrt", false, false}, {"ln", false, false}, {"log2", false, false}, {"log10", false, false},
-	{"sin", true, false}, {"cos", true, false}, {"tan", false, false},
+	// sin and cos are 1-Lipschitz, but the absolute error of an R operand grows with its
+	// magnitude (sin(deg(exp(avg(x)))) amplifies one ulp to 1e-6), so they take <= I only.
+	{"sin", false, false}, {"cos", false, false}, {"tan", false, false},
 	{"asin", false, false}, {"acos", false, false}, {"atan", true, false},
 	{"sinh", true, false}, {"cosh", true, false}, {"tanh", true, false},
 	{"asinh", true, false}, {"acosh", false, false}, {"atanh", false, false},
@@ -294,6 +300,10 @@ func (g *G) Scalar(depth int, max Cls) (string, Cls) {
 		}
 		if op == "%" || op == "^" {
 			lm, rm = minCls(max, I), minCls(max, I)
+		}
+		if op == "/" || op == "^" {
+			g.zeroSign++
+			defer func() { g.zeroSign-- }()
 		}
 		a, ca := g.Scalar(depth-1, lm)
 		b, cb := g.Scalar(depth-1, rm)
@@ -549,6 +559,10 @@ func (g *G) vectorProd(which string, depth int, max Cls) (string, Cls) {
 				if max < R {
 					continue
 				}
+			case "min", "max":
+				if g.zeroSign > 0 {
+					continue
+				}
 			}
 			ops = append(ops, op)
 		}
@@ -608,6 +622,10 @@ func (g *G) vectorProd(which string, depth int, max Cls) (string, Cls) {
 			rm = minCls(max, I)
 		case op == "%" || op == "^" || op == "atan2":
 			lm, rm = minCls(max, I), minCls(max, I)
+		}
+		if op == "/" || op == "^" || op == "atan2" {
+			g.zeroSign++
+			defer func() { g.zeroSign-- }()
 		}
 		shape := ir(t, 0, 5, "binshape") // 0-2 vec-vec, 3 vec-scalar, 4 scalar-vec, 5 vec-vec
 		boolMod := ""
